@@ -185,7 +185,7 @@ class LongReadAssigner:
         for isoform_id, diff_introns in intron_matching_isoforms:
             transcript_start, transcript_end = self.gene_info.transcript_region(isoform_id)
             extra_left = 1 if read_region[0] + self.params.delta < transcript_start else 0
-            extra_right = 1 if read_region[0] - self.params.delta > transcript_end else 0
+            extra_right = 1 if read_region[1] - self.params.delta > transcript_end else 0
             candidates.append((isoform_id, diff_introns + extra_right + extra_left))
         # select isoforms that have similar number of potential inconsistencies
         best_diff = min(candidates, key=lambda x: x[1])[1]
